@@ -23,20 +23,31 @@ PROPS = "Props/C07.v"
 RULE = ("P-correspondence: a case is (function, graph or grid shape or inner frame, group_size form, "
         "is_border form, use_graph_primitive, config default); the captured Solver state after the real call "
         "(variable declarations, answer-key flags, constraint trees in posting order), the returned array and "
-        "the exception class must equal the model's.  Non-trivial = distinct (kind, input) pair.  "
+        "the exception class must equal the model's (Graph/VarGroups.v, extracted).  Graphs: every multigraph with "
+        "<= 4 vertices and <= 4 edges, loop graphs <= 3 vertices, random multigraphs <= 9 vertices, grids with "
+        "h*w <= 12 incl. 1xN / Nx1 / empty shapes, inner frames h*w <= 12.  group_size forms: None, int constants "
+        "(0, 1, 2, n, n+1, -1), IntVar, IntExpr, lists / tuples / IntArray1D / rows / IntArray2D with None holes, "
+        "ints, variables, expressions; malformed: wrong lengths, bool items, BoolExpr items, wrong container kinds.  "
+        "is_border forms: BoolArray1D, lists of v / ~v / v&w / v|~w / comparisons / True / False, malformed items "
+        "(int, None, IntVar), wrong lengths, frames.  spec-vs-oracle: the executable Coq specifications "
+        "realisable_b / border_exact_b (proved equivalent to the relational ones) against the plain-Python oracles.  "
+        "Non-trivial = distinct (kind, input) pair.  "
         "Search: for every graph in scope and every set partition of its vertices (resp. every subset of "
-        "border edges) the posted program with the pattern fixed is decided by z3 and compared with a "
-        "plain-Python oracle (blocks connected, sizes as specified, every border edge separates).")
+        "border edges) the really posted non-primitive program with the pattern fixed is decided by z3 and compared "
+        "with a plain-Python oracle (blocks connected, sizes as specified, every border edge separates); the node "
+        "posted by the primitive route is evaluated with the operator's defined meaning by the extracted model.")
 TRUSTED = [
-    "z3 4.x/5.x as a decision procedure for the search only (never discharges an obligation)",
-    "harness-side translation of cspuz expression trees to z3 terms (pC07.to_z3, 25 lines) and the recording of the posted program through the public Solver class",
-    "the meaning of Op.GRAPH_DIVISION is defined as the specification (VarGroups.gdiv_sem = border_exact_b on the decoded operands); the external solver implementing it is trusted",
-    "graph-theoretic definitions in Graph/VarGroups.v (realisable, border_exact, same_cut) and Graph/GraphModel.v (reach, connected); cross-checked on every run against a plain-Python oracle (kinds spec-vs-oracle)",
+    "z3 as a decision procedure for the search only (never discharges an obligation)",
+    "harness-side translation of cspuz expression trees to z3 terms (pC07.to_z3) and the recording of the posted program through the public Solver class (exprio.show_state)",
+    "the meaning of Op.GRAPH_DIVISION is defined as the specification (VarGroups.gdiv_sem = border_exact_b on the decoded operands; theorem vargroups_primitive_exact); the external solver implementing it is trusted",
+    "graph-theoretic definitions in Graph/VarGroups.v (realisable, border_exact, same_cut, is_cut_block) and Graph/GraphModel.v (reach, connected); their executable versions are proved equivalent (vargroups_specs_reflect) and cross-checked on every run against a plain-Python oracle (kinds spec-vs-oracle:*)",
+    "ordinary meaning of the expression operators (Core/Expr.v eval)",
 ]
 ASSUMPTIONS = [
-    "graphs are well formed (edge endpoints < num_vertices; Graph.add_edge raises otherwise) and num_vertices >= 1 for the theorems (num_vertices = 0 raises ValueError, checked by the tie)",
-    "the caller's variables occurring in group_size / is_border are not otherwise constrained (quantification over an arbitrary assignment of the ids below next_id)",
-    "group_size items are None, Python ints, IntVar or IntExpr trees; is_border items are BoolVar / BoolExpr trees or Python bools (other objects: only the raised error / degenerate constraint is modelled)",
+    "graphs are well formed (edge endpoints < num_vertices; Graph.add_edge raises otherwise) and num_vertices >= 1 for the theorems (num_vertices = 0 raises ValueError, checked by the tie); parallel edges and self loops are allowed",
+    "the caller's variables occurring in group_size / is_border are not otherwise constrained: the theorems quantify over an arbitrary assignment of the ids below next_id and ask for an extension to the ids the call declares",
+    "group_size items are None, Python ints, IntVar or IntExpr trees that evaluate to integers; is_border items are BoolVar / BoolExpr trees or Python bools (other objects: only the raised error / degenerate constraint is modelled and tied, e.g. a Python bool as a size posts the constant False)",
+    "a partition is given as a label per vertex; 'realised by the ids' = for all u, v < n: ids[u] == ids[v] iff same label",
 ]
 
 ERR = {1: "IndexError", 2: "KeyError", 3: "AssertionError", 4: "TypeError", 5: "ValueError",
@@ -640,7 +651,11 @@ def sizes_tok(spec):
 def search(ctx):
     from cspuz import Solver, graph as cg
     rng = ctx.rng
-    thorough = ctx.thorough or getattr(ctx, "deep", False)
+    thorough = ctx.thorough
+    deep = getattr(ctx, "deep", False) and not thorough   # a proof / tie broke: search a wider scope, stop at the first few findings
+
+    def enough():
+        return len(ctx.violations) >= 6
     model = None
     try:
         model = ctx.model("C07")
@@ -652,10 +667,12 @@ def search(ctx):
     if thorough:
         part_graphs = small + five + [graphcap.random_multigraph(rng, 6) for _ in range(60)]
     else:
-        part_graphs = small + rng.sample(five, 60) + [graphcap.random_multigraph(rng, 5) for _ in range(20)]
+        part_graphs = small + rng.sample(five, 150 if deep else 60) + [graphcap.random_multigraph(rng, 5, loops=(i % 4 == 0)) for i in range(20)]
 
     # ---- (a) partitions, graph form
     for gi, (n, edges) in enumerate(part_graphs):
+        if enough():
+            break
         forms = search_size_forms(n, rng)
         if not thorough:
             forms = [forms[0]] + rng.sample(forms[1:], 3 if n <= 4 else 2)
@@ -677,7 +694,7 @@ def search(ctx):
                 if got != want:
                     ctx.violation("partition:%d:%s:%s:%s" % (n, edges, [repr(x) for x in spec], list(labels)),
                                   "realisability of a partition by the returned group ids differs from the specification",
-                                  {"function": "division_connected_variable_groups", "n": n, "edges": edges,
+                                  {"function": "division_connected_variable_groups", "n": n, "edges": edges, "form": nm,
                                    "group_size": [repr(x) for x in spec], "domains": {str(k): v for k, v in dom.items()},
                                    "partition": list(labels), "expected_realisable": want, "posted_program_sat": got})
 
@@ -720,10 +737,12 @@ def search(ctx):
     if thorough:
         bgraphs += [g for g in five if len(g[1]) <= 5] + [graphcap.random_multigraph(rng, 6) for _ in range(80)]
     else:
-        bgraphs += rng.sample(five, 25) + [graphcap.random_multigraph(rng, 5) for _ in range(25)]
+        bgraphs += rng.sample(five, 60 if deep else 25) + [graphcap.random_multigraph(rng, 5, loops=(i % 4 == 0)) for i in range(25)]
     bgraphs = [g for g in bgraphs if len(g[1]) <= 7]
     gd_reqs, gd_meta = [], []
     for gi, (n, edges) in enumerate(bgraphs):
+        if len(ctx.violations) >= 12:
+            break
         m = len(edges)
         forms = search_size_forms(n, rng, scalar_ok=False)
         if not thorough:
@@ -844,6 +863,10 @@ def replay(ctx, rp):
         else:
             n, edges = d["n"], [tuple(e) for e in d["edges"]]
             arg, spec, dom = parse_sizes(s, d["group_size"])
+            if d.get("form", "").startswith(("const", "scalar")):
+                arg = arg[0]
+            elif d.get("form") == "none":
+                arg = None
             ids = list(cg.division_connected_variable_groups(s, graph=graphcap.mk_graph(n, edges), group_size=arg))
         zp = Z3Prog(s)
         lab = d["partition"]
